@@ -136,9 +136,10 @@ def run(repo, chk):
            "the required names are the selector's captures (inherited by forks), and every fork is recorded as a child of its parent")
     lv = repo.func("interpret.Total.leaves")
     flv = Facts(lv.node)
-    rets = returns_with_conds(lv.node)
-    ok = len(rets) == 2 and flv.has("return [self]", exactly=["isinstance(self.selector, Element)"]) \
-        and flv.has("return [_t for child in self.children for _t in child.leaves()]", exactly=["not isinstance(self.selector, Element)"])
+    from ..astq import returned_list_sources
+    srcs_ = returned_list_sources(lv.node)
+    ok = srcs_ == {("isinstance(self.selector, Element)", (), "the item", "self"),
+                   ("not isinstance(self.selector, Element)", ("for child in self.children",), "each of", "child.leaves()")}
     chk.ob("R07.4", "interpret.Total.leaves:leaf-is-an-element-fork", ok, lv.where,
            "leaves are the forks made for a focused element; inner nodes contribute the leaves of their children")
     bd = repo.func("interpret.BaseAccumulator.build")
@@ -160,9 +161,12 @@ def run(repo, chk):
     chk.ob("R07.5", "interpret.Total.accumulator_for:fork-on-focus", ok, af.where, "a focused element gets its own fork (one record per binding of the focus, sharing the outer values)")
     mr = repo.func("probe.Probe._make_rule")
     fmr = facts_of(mr)
-    imm = [c for t, c, n in fmr.starting("return Immediate(") if isinstance(n, ast.Return)]
-    ok = fmr.has("return Total(sel, close=self._make_emitter(sel))", exactly=lits("probe_type != 'total' and (sel.focus or probe_type == 'immediate')", False)) \
-        and bool(imm) and all({"probe_type != 'total'", "probe_type == 'immediate' or sel.focus"} <= set(c) for c in imm) and ends_in_jump(mr.node.body)
+    rws = [(set(cs), expand(v, mr.node)) for cs, v, r in returns_with_conds(mr.node) if v is not None]
+    sp = mr.node.args.args[1].arg
+    tot = [cs for cs, t in rws if t == f"Total({sp}, close=self._make_emitter({sp}))"]
+    imm = [cs for cs, t in rws if t.startswith("Immediate(")]
+    ok = len(tot) == 1 and tot[0] == set(lits(f"probe_type != 'total' and ({sp}.focus or probe_type == 'immediate')", False)) \
+        and bool(imm) and all({"probe_type != 'total'", f"probe_type == 'immediate' or {sp}.focus"} <= c for c in imm) and len(tot) + len(imm) == len(rws)
     chk.ob("R07.5", "probe.Probe._make_rule:total-for-focus-free-or-forced", ok, mr.where, "a selector without focus, or probe_type='total', uses a Total accumulator whose close function is the emitter")
     from .shared import activation_integrity_obligations
     activation_integrity_obligations(repo, chk, "R07.1", "aggregating probes")
@@ -180,3 +184,11 @@ def run(repo, chk):
     build_precedence_obligations(repo, chk, "R07.4", "a record shows each captured name once, with the values of the level that declared it first")
     from .shared import call_aggregate_obligations
     call_aggregate_obligations(repo, chk, "R07.5", ["focus", "all_captures"], "whether a selector has a focus (fork per binding) and which names a complete record needs are decided over the whole call path")
+    from .shared import fork_obligations
+    fork_obligations(repo, chk, "R07.2", "each outermost call (and each binding of the focus) accumulates into its own record")
+    # probe_type must reach Probe through every entry point: it decides Total vs Immediate
+    for q_ in ("probe.probing", "probe.global_probe"):
+        f_ = repo.func(q_)
+        fw = [k for n in walk_local(f_.node) if isinstance(n, ast.Call) for k in n.keywords if k.arg == "probe_type"]
+        chk.ob("R07.5", f"{q_}:probe_type-handed-through", len(fw) == 1 and norm(fw[0].value) == "probe_type", f_.where,
+               f"{q_} hands its probe_type argument to the probe it builds (forcing 'total' on a focused selector must work through every entry point)")
